@@ -106,3 +106,24 @@ def describe_partition(parts, num=None, next_tag=None):
                     lines.append(("numbered-send", pid, name, sd.comm_tag))
         lines.append(("next_tag", next_tag))
     return lines
+
+
+def observe_kernel(bp):
+    """Hash-free, order-faithful view of a generated kernel: instruction
+    order, text of assignee and expression, *sorted* iname / dependency sets
+    (they are sets: their printing order is loopy's business), argument
+    order, temporaries, domains, bound arguments."""
+    knl = bp.program.default_entrypoint
+    insns = []
+    for i in knl.instructions:
+        insns.append((i.id, str(getattr(i, "assignee", getattr(
+            i, "assignees", ""))), str(i.expression),
+            sorted(i.within_inames), sorted(i.depends_on)))
+    return (insns,
+            [(a.name, str(getattr(a, "shape", None)), str(a.dtype))
+             for a in knl.args],
+            sorted(knl.temporary_variables),
+            [str(d) for d in knl.domains],
+            sorted((k, str(v.expression)) for k, v in
+                   knl.substitutions.items()),
+            list(bp.bound_arguments))
